@@ -55,7 +55,7 @@ var poolSpecs = []poolSpec{
 	{"-9223372036854775807", "int", "extreme big"}, {"(-9223372036854775807 - 1)", "int", "extreme big"},
 	// floats
 	{"0.0", "float", "zero"}, {"1.5", "float", ""}, {"-1.5", "float", ""}, {"1.0", "float", ""}, {"2.0", "float", ""}, {"1.0e308", "float", ""},
-	{"0.1", "float", ""}, {"inf", "float", "inf"}, {"-inf", "float", "inf"}, {"nan", "float", "nan"},
+	{"0.1", "float", ""}, {"(0.0 * -1.0)", "float", "zero negzero"}, {"inf", "float", "inf"}, {"-inf", "float", "inf"}, {"nan", "float", "nan"},
 	// strs
 	{`""`, "str", "zero"}, {`"a"`, "str", ""}, {`"abc"`, "str", ""}, {`"ab"`, "str", ""}, {`"b"`, "str", ""}, {`"日本語"`, "str", ""}, {`"a\nb"`, "str", ""},
 	{`"\"q\""`, "str", ""}, {`"0"`, "str", ""}, {`"len"`, "str", ""}, {`'sym`, "str", ""}, {`"1"`, "str", ""}, {`"A"`, "str", ""},
